@@ -147,5 +147,15 @@ claim("C16", "Lean 4 theorems (all loss sequences of pairwise-distinct values of
       "sampled settings) x patience x max x return_best, jit enabled and disabled, single- and multi-batch epochs.",
       _TB2 + " Ties and NaN losses are outside the property's quantifier (the model resolves ties as the code does, unproved).", "DESIGN.md §5 C16")
 
-for _p in ["C02","C04","C06","C14","C17"]:
+claim("C04", "Lean 4 theorems (Mathlib change of variables) about definitions regenerated from the source (py2lean) + Float correspondence; quadrature/KS oracle on the real code when a tie breaks",
+      "PARTIAL. Proved: the change-of-variables density preserves total mass and is the law of the transformed sample (finite-dimensional, 1-D, and 1-D with finitely many kinks); "
+      "for the generated AbstractTransformed methods, any depth of nested Transformed over layers that are lawful bijections of R with correct inverse log-dets integrates to one when the base does, "
+      "for every condition, and the law of `sample` has density exp(log_prob) whenever the base sampler's law has density exp(base log_prob); these layer hypotheses are discharged for the generated "
+      "Affine/Scale/Loc (any non-zero scale), LeakyTanh (any max_val > 0, switch points included) and RationalQuadraticSpline (any constructor-reachable parameters, one-sided derivatives at the interval ends); "
+      "the generated StandardNormal log-density is normalised; Tanh is not onto R and its pull-back only collects the base mass in (-1,1).",
+      _TB + " PARTIAL: PRNG statistics (that the base sampler draws from the base density) and rounding are outside; BNAF's sampling direction uses the numerical inverter so 'samples follow the density' "
+      "holds up to C10's tolerance; d-dimensional Coupling/MAF/Planar/BNAF normalisation is reduced to hypotheses (lawful bijection + Jacobian of the inverse + reported log-det, `Mass.InvJacN`) until their "
+      "Jacobian theorems exist. The correspondence is C03's (same generated definitions).", "DESIGN.md §5 C04")
+
+for _p in ["C02","C06","C14","C17"]:
     NOT_YET[_p] = "not yet built in this round: theorems and correspondence under construction (see DESIGN.md §8); never claimed on the strength of the harness alone"
